@@ -188,6 +188,9 @@ type c02Builder struct {
 	// body executes that statement outside any loop of its own (c02StrayDefs): it acts on no
 	// loop of the caller, the call is rejected inside the wrapper, which handles the exception
 	stray bool
+	// bare: no trace after the last statement of a block, so that a block can END with a
+	// compound statement (what follows a nested chain on a shallower line belongs to the outer one)
+	bare bool
 }
 
 func c02Show(args ...zn.Expr) zn.Stmt {
@@ -239,8 +242,11 @@ func (b *c02Builder) body(nodes []*c02Node, trailing bool) []zn.Stmt {
 		out = append(out, b.trace(b.num()))
 		out = append(out, b.stmt(n)...)
 	}
-	if trailing {
+	if trailing && !b.bare {
 		out = append(out, b.trace(b.num()))
+	}
+	if len(nodes) > 0 && len(nodes[len(nodes)-1].bodies) > 0 {
+		b.feat["block-ends-with-compound"] = true
 	}
 	return out
 }
@@ -267,6 +273,7 @@ func (b *c02Builder) stmt(n *c02Node) []zn.Stmt {
 	case "If":
 		s := zn.If{Cond: b.cond(n.conds[0]), Then: b.body(n.bodies[0], true)}
 		if n.noElse {
+			b.feat["chain-without-else"] = true
 			s.Elifs = []zn.Elif{{Cond: b.cond(n.conds[1]), Body: b.body(n.bodies[1], true)}}
 			return []zn.Stmt{s}
 		}
@@ -342,14 +349,17 @@ type c02Case struct {
 	Idx    int64  `json:"index"`
 	Method bool   `json:"as_method"`
 	Stray  bool   `json:"loop_statements_in_callees,omitempty"`
+	Bare   bool   `json:"no_trace_at_block_ends,omitempty"`
 	Source string `json:"source"`
 }
 
 const c02Depth = 3
 
-func c02Make(m int, idx int64, method, stray bool) (*zn.Program, map[string]bool) {
+// mode: 0 plain, 1 loop statements in callees, 2 no trace at the end of blocks
+func c02Make(m int, idx int64, method bool, mode int) (*zn.Program, map[string]bool) {
 	sk := c02UnrankBody(m, c02Depth, false, idx)
-	b := &c02Builder{feat: map[string]bool{}, stray: stray}
+	b := &c02Builder{feat: map[string]bool{}, stray: mode == 1, bare: mode == 2}
+	stray := mode == 1
 	pre := []zn.Stmt{c02Tracer}
 	if stray {
 		pre = append(pre, c02StrayDefs...)
@@ -361,13 +371,17 @@ func c02Make(m int, idx int64, method, stray bool) (*zn.Program, map[string]bool
 	return &zn.Program{Body: append(pre, b.body(sk, false)...)}, b.feat
 }
 
-func c02Check(m int, idx int64, method, stray bool) (*mc.Failure, *zn.Program) {
-	prog, feat := c02Make(m, idx, method, stray)
+func c02Check(m int, idx int64, method bool, mode int) (*mc.Failure, *zn.Program) {
+	prog, feat := c02Make(m, idx, method, mode)
+	stray := mode == 1
 	if stray && !feat["B"] && !feat["C"] {
 		return nil, nil // no loop statement in this tree: the plain run is the same program
 	}
+	if mode == 2 && (!feat["block-ends-with-compound"] || m >= 5 && !feat["chain-without-else"]) {
+		return nil, nil
+	}
 	src := zn.Render(prog, nil)
-	cs := func() json.RawMessage { return mc.J(c02Case{M: m, Idx: idx, Method: method, Stray: stray, Source: src}) }
+	cs := func() json.RawMessage { return mc.J(c02Case{M: m, Idx: idx, Method: method, Stray: stray, Bare: mode == 2, Source: src}) }
 	rf := zn.NewRef()
 	want, werr, aborted := rf.RunProgram(prog, nil)
 	if aborted {
@@ -422,7 +436,7 @@ func init() {
 	mc.Register(&mc.Check{
 		ID:    "C02",
 		Level: "exploration",
-		Rule:  "E1 exhaustive by rank/unrank: every statement tree with <= k statement nodes and nesting <= 3 over {输出, expression, 结束循环, 继续循环 (inside loops only), 如果 (如果 | 如果/否则 | 如果/再如 | 如果/再如/否则, every truth assignment), 每当 (2 passes via a dedicated counter; 2 passes via a bare flag variable that the body clears), 遍历 over [10,20] with 1/2/0 variables, over a dictionary with 2 variables, over an empty list}; every expression statement is followed by a method definition (hoisted, so the expression stays final); the two-variable list loop changes its index variable in place (自增) and traces it; a trace statement is planted before every statement and at the end of every block; each tree is run as program body and as method body; every tree of <= 4 (5 thorough) nodes that contains 结束循环 / 继续循环 is run again with each of them moved into a callee (a method whose own body executes the loop statement outside any loop of its own, called through a wrapper that handles the exception): it must act on no loop of the caller. Distinct by construction; non-trivial = contains at least one compound statement.",
+		Rule:  "E1 exhaustive by rank/unrank: every statement tree with <= k statement nodes and nesting <= 3 over {输出, expression, 结束循环, 继续循环 (inside loops only), 如果 (如果 | 如果/否则 | 如果/再如 | 如果/再如/否则, every truth assignment), 每当 (2 passes via a dedicated counter; 2 passes via a bare flag variable that the body clears), 遍历 over [10,20] with 1/2/0 variables, over a dictionary with 2 variables, over an empty list}; every expression statement is followed by a method definition (hoisted, so the expression stays final); the two-variable list loop changes its index variable in place (自增) and traces it; a trace statement is planted before every statement and at the end of every block; each tree is run as program body and as method body; every tree of <= 4 (5 thorough) nodes that contains 结束循环 / 继续循环 is run again with each of them moved into a callee (a method whose own body executes the loop statement outside any loop of its own, called through a wrapper that handles the exception): it must act on no loop of the caller; every tree of <= 4 nodes (5 nodes: those with a 如果/再如 chain without 否则) with a block that ends with a compound statement is run again without the traces at block ends (a nested chain directly followed by the outer chain's 再如 / 否则). Distinct by construction; non-trivial = contains at least one compound statement.",
 		Assumptions: []string{
 			"reference interpreter written from manual ch.7/8 is the oracle (result + ordered trace)",
 			"the program result is compared only when the statement defines it (an 输出 ran, or the last top-level statement is an expression)",
@@ -433,7 +447,7 @@ func init() {
 			if tier == "thorough" {
 				return 20 * time.Minute
 			}
-			return 100 * time.Second
+			return 240 * time.Second
 		},
 		Run: func(c *mc.Ctx) {
 			K := 5
@@ -458,7 +472,7 @@ func init() {
 						return
 					}
 					c.CaseIdx(idx)
-					f, prog := c02Check(m, k/2, k%2 == 1, false)
+					f, prog := c02Check(m, k/2, k%2 == 1, 0)
 					c.Eval(m > 1)
 					c.Stat(fmt.Sprintf("programs_%d_nodes", m), 1)
 					if f != nil {
@@ -471,42 +485,45 @@ func init() {
 				base += total * 2
 				c.Bound(fmt.Sprintf("nodes_%d", m), fmt.Sprintf("complete: %d trees x 2 (program body / method body)", total))
 			}
-			// the same trees with every 结束循环 / 继续循环 moved into a callee (c02StrayDefs)
-			KS := 4
-			if c.Tier == "thorough" {
-				KS = 5
-			}
-			base = 1 << 40
-			for m := 2; m <= KS; m++ {
-				total := c02Bodies(m, c02Depth, false)
-				mm, b0 := m, base
-				c.Describe = func(idx int64) json.RawMessage {
-					k := idx - b0
-					return mc.J(c02Case{M: mm, Idx: k / 2, Method: k%2 == 1, Stray: true})
+			// the same trees (1) with every 结束循环 / 继续循环 moved into a callee (c02StrayDefs),
+			// (2) without the trace at the end of blocks (blocks may end with a compound statement)
+			for mode := 1; mode <= 2; mode++ {
+				KS := 4
+				if c.Tier == "thorough" || mode == 2 {
+					KS = 5
 				}
-				for k := int64(0); k < total*2; k++ {
-					idx := base + k
-					if !c.Mine(idx) {
-						continue
+				base = int64(mode) << 40
+				for m := 2; m <= KS; m++ {
+					total := c02Bodies(m, c02Depth, false)
+					mm, b0, md := m, base, mode
+					c.Describe = func(idx int64) json.RawMessage {
+						k := idx - b0
+						return mc.J(c02Case{M: mm, Idx: k / 2, Method: k%2 == 1, Stray: md == 1, Bare: md == 2})
 					}
-					if c.Due(0x3FF) {
-						c.Note(fmt.Sprintf("deadline hit at %d nodes (loop statements in callees)", m))
-						return
+					for k := int64(0); k < total*2; k++ {
+						idx := base + k
+						if !c.Mine(idx) {
+							continue
+						}
+						if c.Due(0x3FF) {
+							c.Note(fmt.Sprintf("deadline hit at %d nodes (mode %d)", m, mode))
+							return
+						}
+						c.CaseIdx(idx)
+						f, prog := c02Check(m, k/2, k%2 == 1, mode)
+						if prog == nil {
+							continue
+						}
+						c.Eval(true)
+						c.Stat([]string{"", "programs_with_loop_statements_in_callees", "programs_without_trace_at_block_ends"}[mode], 1)
+						if f != nil {
+							c.Fail(*f)
+						}
 					}
-					c.CaseIdx(idx)
-					f, prog := c02Check(m, k/2, k%2 == 1, true)
-					if prog == nil {
-						continue
-					}
-					c.Eval(true)
-					c.Stat("programs_with_loop_statements_in_callees", 1)
-					if f != nil {
-						c.Fail(*f)
-					}
+					base += total * 2
 				}
-				base += total * 2
+				c.Bound([]string{"", "loop_statements_in_callees", "no_trace_at_block_ends"}[mode], fmt.Sprintf("complete: every tree of 2..%d nodes that %s, x 2", KS, []string{"", "contains 结束循环 / 继续循环", "has a block ending with a compound statement (5 nodes: and a chain without 否则)"}[mode]))
 			}
-			c.Bound("loop_statements_in_callees", fmt.Sprintf("complete: every tree of 2..%d nodes that contains 结束循环 / 继续循环, x 2", KS))
 			c02NonBool(c)
 		},
 		Replay: func(c *mc.Ctx, raw json.RawMessage) {
@@ -519,7 +536,13 @@ func init() {
 				c02NonBool(c)
 				return
 			}
-			if f, _ := c02Check(cs.M, cs.Idx, cs.Method, cs.Stray); f != nil {
+			mode := 0
+			if cs.Stray {
+				mode = 1
+			} else if cs.Bare {
+				mode = 2
+			}
+			if f, _ := c02Check(cs.M, cs.Idx, cs.Method, mode); f != nil {
 				c.Fail(*f)
 			}
 		},
